@@ -167,7 +167,7 @@ def run(ctx):
     def c1(inst):
         b = F.fn("ZoneWriter::write_all")
         ins = one(b, r"ZoneIndex::insert$")
-        loops = [c for c in b.find_calls(r"Iterator>::next$") if b.can_reach(c.bb, ins.bb) and b.can_reach(ins.bb, c.bb)]
+        loops = [c for c in for_headers(b) if b.can_reach(c.bb, ins.bb) and b.can_reach(ins.bb, c.bb)]
         if len(loops) < 2:
             raise AnchorMissing("two nested loops around ZoneIndex::insert (found %d)" % len(loops))
         inst.sites = [sp(b, ins.bb)] + [sp(b, c.bb) for c in loops]
